@@ -37,3 +37,22 @@ package keystore
 //@   assert-at call createManagerKeyScope keys-rederived-from-the-decrypted-root-with-the-file-path: arg1 == lastresult("NewKeyFromString") && arg4 == kStore.HDpath
 //@   assert-at call createManagerKeyScope file-counters-were-integrity-checked: authenticPath(kStore.HDpath)
 //@   assert-at call putRemark file-remark-was-integrity-checked: authenticText(kStore.Remark)
+
+// ---- C01: the structure import works on is exactly what the file says: parsed from the given bytes, returned as
+// parsed, no parsed field rewritten afterwards
+//@ func GetKeystoreFromJson
+//@   assert-at call Unmarshal parsed-from-the-file-bytes: arg0 == keysJson
+//@   assert-at return#2 the-parsed-structure-from-the-file-is-returned: result0 != nil && result1 == nil
+//@   assert-at store? Keystore.Remark no-field-from-the-file-is-rewritten: false
+//@   assert-at store? hdPath.Purpose no-field-from-the-file-is-rewritten: false
+//@   assert-at store? hdPath.Coin no-field-from-the-file-is-rewritten: false
+//@   assert-at store? hdPath.Account no-field-from-the-file-is-rewritten: false
+//@   assert-at store? hdPath.ExternalChildNum no-field-from-the-file-is-rewritten: false
+//@   assert-at store? hdPath.InternalChildNum no-field-from-the-file-is-rewritten: false
+//@   assert-at store? cryptoJSON.Cipher no-field-from-the-file-is-rewritten: false
+//@   assert-at store? cryptoJSON.MasterHDPrivKeyEnc no-field-from-the-file-is-rewritten: false
+//@   assert-at store? cryptoJSON.KDF no-field-from-the-file-is-rewritten: false
+//@   assert-at store? cryptoJSON.PubParams no-field-from-the-file-is-rewritten: false
+//@   assert-at store? cryptoJSON.PrivParams no-field-from-the-file-is-rewritten: false
+//@   assert-at store? cryptoJSON.CryptoKeyPubEnc no-field-from-the-file-is-rewritten: false
+//@   assert-at store? cryptoJSON.CryptoKeyPrivEnc no-field-from-the-file-is-rewritten: false
